@@ -545,6 +545,10 @@ var allBytes = func() string {
 
 func genDebModel(r *core.Rand) debModel {
 	m := debModel{BinaryText: "2.0\n"}
+	if r.Chance(1, 8) {
+		// deb(5): further lines may follow the version line and are ignored
+		m.BinaryText += r.Pick([]string{"\n", "built-by: verif\n", "2.1\n", "x", strings.Repeat("line\n", r.Range(1, 30))})
+	}
 	m.ControlText, m.Expect = genTypedDoc(r, "DebControl")
 	ctl := tarFile{Name: r.Pick([]string{"./control", "control", "./control", ".//control", "./x/../control"}), Body: m.ControlText}
 	others := []tarFile{{Name: "./", Dir: true}, {Name: "./md5sums", Body: "d41d8cd98f00b204e9800998ecf8427e  usr/bin/foo\n"}, {Name: "./postinst", Body: "#!/bin/sh\nexit 0\n"}, {Name: "./conffiles", Body: "/etc/foo\n"}}
